@@ -150,7 +150,8 @@ Record dcase := DC {
   d_panic : bool;          (* the real postprocessItem panicked *)
   d_status : status;       (* item status afterwards *)
   d_children : Z;
-  d_outlinks : Z }.
+  d_outlinks : Z;
+  d_prepared : bool }.     (* the item was prepared by the real archiver.ProcessBody and that returned nil *)
 
 Definition ddiff_case (c : dcase) : bool :=
   match postprocess_item (d_conf c) (d_view c) (d_preds c) (d_exts c) with
@@ -175,8 +176,13 @@ Definition dmon_untouched (c : dcase) : bool :=
   else negb (d_panic c) && status_eqb (d_status c) (v_status (d_view c))
        && (d_children c =? 0) && (d_outlinks c =? 0).
 
+(* monitor 2 - the archiver's side: an item prepared by the real ProcessBody (returned nil) and
+   marked archived satisfies the invariant the dispatch theorem assumes *)
+Definition dmon_archiver_inv (c : dcase) : bool :=
+  if d_prepared c then archiver_invb (d_view c) else true.
+
 Definition ddiffs (l : list dcase) := bad_idx ddiff_case l.
-Definition dmons (l : list dcase) := mon_idx [dmon_nil_safe; dmon_untouched] l.
+Definition dmons (l : list dcase) := mon_idx [dmon_nil_safe; dmon_untouched; dmon_archiver_inv] l.
 
 (* ---------------------------------------------------------------------------------------
    fuzz: target number, outcome (0 returned - with or without an error; 1 panic; 2 no answer
